@@ -68,9 +68,14 @@ let () =
           let mon = is_monitor kind in
           if (not !insync) && not mon then incr skipped
           else begin
-            let ins = List.map n_of_string ins in
-            let obs = List.map n_of_string (split_ws rhs) in
-            let (st', exp) = step !st kind ins in
+            (* a line that is too long for the (non tail-recursive) extracted functions: it cannot come from the unchanged
+               tree; it is reported as a failed line instead of taking the runner down *)
+            let (st', exp, obs) =
+              (try
+                 let ins = List.rev (List.rev_map n_of_string ins) in
+                 let obs = List.rev (List.rev_map n_of_string (split_ws rhs)) in
+                 let (st', exp) = step !st kind ins in (st', exp, obs)
+               with Stack_overflow -> (!st, [n_of_int 88888], [])) in
             st := st';
             incr compared;
             Hashtbl.replace kinds ki (1 + (try Hashtbl.find kinds ki with Not_found -> 0));
